@@ -10,7 +10,7 @@ Inductive value :=
 | VInt (z : Z)
 | VVec (l : list value).
 
-Inductive prim := PTrace | PVec.
+Inductive prim := PTrace | PVec | PConj | PInc | PLt.
 
 Definition trace := list value.
 
@@ -31,6 +31,10 @@ Definition apply_prim (f : prim) (vs : list value) : option (value * trace) :=
   | PTrace, [v] => Some (v, [v])
   | PTrace, _ => None                 (* arity error: outside the well-formed fragment *)
   | PVec, _ => Some (VVec vs, [])
+  | PConj, [VVec l; v] => Some (VVec (l ++ [v]), [])
+  | PInc, [VInt z] => Some (VInt (z + 1), [])
+  | PLt, [VInt a; VInt b] => Some (VBool (Z.ltb a b), [])
+  | _, _ => None                      (* ill-typed call: outside the well-formed fragment *)
   end.
 
 Definition env := N -> option value.
